@@ -129,6 +129,23 @@ theorem mergeNew_noleft {T : HTree} (A B : List HTree) (hA : ∀ x ∈ A, x.hand
 
 /-! ### The second half of `insert_before` -/
 
+/-- The node before the reference is not the moved node: the helper takes it as it is. -/
+theorem selfPrev_prevOf {X : Forest} {c : Nat} {A : List HTree} {kr : HTree}
+    (hnot : ∀ k ∈ A, k.handle ≠ c) (h : X.prevSibling kr.handle = prevOf A kr) :
+    X.selfPrev c (X.prevSibling kr.handle) = prevOf A kr := by
+  rw [h]
+  apply Forest.selfPrev_of_ne
+  intro e
+  unfold prevOf at e
+  cases hl : A.getLast? with
+  | none => rw [hl] at e; cases e
+  | some k =>
+    rw [hl] at e
+    simp only at e
+    split at e
+    · exact hnot k (List.mem_of_getLast? hl) (Option.some.inj e)
+    · cases e
+
 /-- What the second half of `insert_before(kr, c)` reads from the state `X` (after the
     old-place consolidation) and what its two ways of placing the node do, in terms of the forest
     `Y` = `X` without the moved subtree, whose child list of `q` is `A ++ kr :: B`. -/
@@ -139,7 +156,7 @@ structure Tail (X Y : Forest) (c : Nat) (t : HTree) (q : Nat) (vq : Value) (A : 
   ysite : SiteAt Y q vq (A ++ kr :: B)
   notin : ∀ k ∈ A ++ kr :: B, k.handle ≠ c
   place : X.checkedInsertBefore kr.handle c = (Y.editAt (some q) (insertBeforeTop kr.handle t), true)
-  prev : t.value.isText = true → X.prevSibling kr.handle = prevOf A kr
+  prev : t.value.isText = true → X.selfPrev c (X.prevSibling kr.handle) = prevOf A kr
   text : ∀ k ∈ A ++ kr :: B, X.textOf k.handle = textData k
   flow : t.value.isText = true → ∀ k ∈ A ++ kr :: B, k.value.isText = true → ∀ v,
     (X.setValue k.handle v).spliceOut c = Y.editAt (some q) (replaceTop k.handle (fun k' => [k'.setValue v]))
@@ -206,7 +223,23 @@ theorem tail_core {X Y : Forest} {c : Nat} {t : HTree} {q : Nat} {vq : Value} {A
   | some tc =>
     have htt : t.value.isText = true := isText_iff_textData.2 ⟨tc, htd⟩
     have hvt : t.value = .text tc := textData_some htd
-    have hprevS : X.prevSibling kr.handle = prevOf A kr := T.prev htt
+    -- eccbbb7: the helper works with `selfPrev` of the node before the reference
+    have hprevS : ∀ nx, X.addConsolidate t.handle (X.prevSibling kr.handle) nx =
+        X.addConsolidate t.handle (prevOf A kr) nx := by
+      intro nx
+      have hne : prevOf A kr ≠ some t.handle := by
+        intro e
+        unfold prevOf at e
+        cases hl : A.getLast? with
+        | none => rw [hl] at e; cases e
+        | some k =>
+          rw [hl] at e
+          simp only at e
+          split at e
+          · exact hAt k (List.mem_of_getLast? hl) (Option.some.inj e)
+          · cases e
+      rw [Forest.addConsolidate_eq_old, T.prev htt, Forest.addConsolidate_eq_old (prev := prevOf A kr),
+        Forest.selfPrev_of_ne hne]
     have hkrtext : X.textOf kr.handle = textData kr := T.text kr (by simp)
     -- is there a text node directly before the reference?
     have prevCase : (∃ A2 ka ta, A = A2 ++ [ka] ∧ textData ka = some ta) ∨
@@ -247,6 +280,7 @@ theorem tail_core {X Y : Forest} {c : Nat} {t : HTree} {q : Nat} {vq : Value} {A
       refine flow2 ka (.text (ta ++ tc)) hkamem hkat htt hc ?_ ?_
       · rw [hprevS, hpv]
         exact Forest.addConsolidate_prev hc (hXtext.trans htd) ((T.text ka hkamem).trans hta) _
+          (hAt ka (by simp))
       · have e1 : (A2 ++ [ka]) ++ kr :: B = A2 ++ ka :: (kr :: B) := by simp
         have e2 : (A2 ++ [ka]) ++ t :: kr :: B = A2 ++ ka :: t :: (kr :: B) := by simp
         have ndL2 : (handlesList (A2 ++ ka :: (kr :: B))).Nodup := e1 ▸ ndLY
@@ -258,9 +292,11 @@ theorem tail_core {X Y : Forest} {c : Nat} {t : HTree} {q : Nat} {vq : Value} {A
         mergeNew_noleft A (kr :: B) hAt hBt hprevNT
       cases htb : textData kr with
       | none =>
-        refine flow1 (Forest.addConsolidate_none (by rw [hprevS]; exact hprevNone) (by
-          intro b h; cases h
-          exact hkrtext.trans htb)) ?_
+        refine flow1 (by
+          rw [hprevS]
+          exact Forest.addConsolidate_none hprevNone (by
+            intro b h; cases h
+            exact hkrtext.trans htb)) ?_
         intro _
         rw [hnoleft, mergeNewHead_other (fun h => not_text_of_textData_none htb h.2)]
       | some tb =>
@@ -269,6 +305,7 @@ theorem tail_core {X Y : Forest} {c : Nat} {t : HTree} {q : Nat} {vq : Value} {A
         refine flow2 kr (.text (tc ++ tb)) (by simp) hkrt htt hc ?_ ?_
         · rw [hprevS]
           exact Forest.addConsolidate_next hc (hXtext.trans htd) hprevNone (hkrtext.trans htb)
+            (hBt kr (by simp))
         · rw [hnoleft, replaceTop_mid rfl tA, mergeNewHead_text hvt (textData_some htb)]
           simp
 
